@@ -682,6 +682,9 @@ def one(case):
     st, out = F.run_main(['-n'] + (['--skip-rate-test'] if skip else []) + extra + ['s.test'], net)
     if st == 99:
         return [{'input': dict(inp, **{'class': 'hang'}), 'got': 'more than 50000 reads', 'want': 'termination'}]
+    if st == 'hang':
+        # "has closed every connection by the time it exits" presupposes that it exits
+        return [{'input': dict(inp, **{'class': 'hang'}), 'got': out.strip().split('\n')[-1][:120], 'want': 'the audit exits (the scripted peer never blocks)'}]
     return footprint(srv, net, skip, st, out, inp)
 def throttle_case(arg):
     """the connections of the rate check are throttled by the server (no identification string): still at most 38 of them"""
